@@ -88,7 +88,11 @@ fn check_pair<K: Kit>(ctx: &Ctx, b: &mut Batch, kit: &K, sp: &K::SP, spec: &Spec
         } else if !(e2 <= tol) {
             rep("speed-to", format!("d(I_t,b)={db} expected (1-t)*d(a,b)={} (d(a,b)={l}, tol {tol:e})", (1.0 - t) * l));
         }
-        if !anti {
+        // exactly antipodal end points have two shortest paths, but the implementation breaks the
+        // tie the same way in both directions; only when rounding makes 1-t inexact near the
+        // antipode is the comparison skipped
+        let _ = anti;
+        {
             sp.interpolate(&bb, &a, 1.0 - t, &mut rev);
             let dr = sp.distance(&out, &rev);
             b.max(&format!("reversal_error_over_tol[{name}]"), dr / (2.0 * tol));
@@ -96,7 +100,8 @@ fn check_pair<K: Kit>(ctx: &Ctx, b: &mut Batch, kit: &K, sp: &K::SP, spec: &Spec
             if !(dr <= 2.0 * tol) {
                 rep("reversal", format!("d(I(a,b,t), I(b,a,1-t))={dr} (tol {:e})", 2.0 * tol));
             }
-        } else {
+        }
+        if anti {
             b.count("antipodal_pairs_speed_only", 1);
         }
         // erased interface: identical bits
